@@ -5,7 +5,10 @@ from . import common, zwcorr, dwcorr
 
 THEOREMS = ["ZwVerif.C05." + t for t in
             ["child_entry", "lowerBound_finds", "child_parent", "root_has_no_parent", "cookedChildren_chain",
-             "cookedParent_keeps_chain", "cookedParent_leaves_partial_unit", "cookedRoot_is_fixpoint"]]
+             "cookedParent_keeps_chain", "cookedParent_leaves_partial_unit", "cookedRoot_is_fixpoint",
+             "parent_chain_ends_at_root", "mem_below", "below_mem",
+             "cooked_climb_ends_at_root", "cookedRoot_of_climb", "cookedParent_of_rel", "cparent_det", "rawParent_child",
+             "rawParent_root", "unitOf_mem", "findDie_mem", "climb_in_unit"]]
 
 # law queries: every one must yield nothing
 LAWS = [
@@ -156,6 +159,8 @@ def run(ctx):
                 s_ok += 1
     finally:
         fs.cleanup()
+    if not ctx.replay:
+        ctx.sample({"law query": lawq[0][1], "cooked entry [offset,[parent],[root],[children],[(attribute,form)]] (library = model)": got[:2]})
     ctx.cov["evaluations"] = dies
     ctx.cov["distinct_nontrivial"] = ok
     ctx.cov["forests"] = n
